@@ -44,6 +44,18 @@ def encode(asc, style):
         out.append('<scoreDef xml:id="sd1">')
     out.append('<staffGrp xml:id="sg1">')
     expected = []
+    common_ppq = 1
+    for pp in asc["parts"]:
+        a, b = common_ppq, pp["qdivs"][0][1]
+        while b:
+            a, b = b, a % b
+        common_ppq = common_ppq * pp["qdivs"][0][1] // a
+    durppq = bool(style.get("durppq")) and style["ppq"]
+
+    def dppq(d_q):
+        # explicit duration in pulses, as notation software writes it next to @dur
+        return ' dur.ppq="%d"' % int(d_q * common_ppq) if durppq else ""
+
     for k, (pi, p, st) in enumerate(staves):
         n = k + 1
         clef = next((c for c in p["clefs"] if c["staff"] == st and c["t"] == 0), {"sign": "G", "line": 2})
@@ -101,7 +113,7 @@ def encode(asc, style):
                         gid = nid("g")
                         xmlid[(pi, g["id"])] = gid
                         acc = ACCID[g["alter"] or 0]
-                        out.append('<note xml:id="%s" grace="acc" dur="8" pname="%s" oct="%d"%s/>' % (gid, g["step"].lower(), g["octave"], ' accid="%s"' % acc if acc else ""))
+                        out.append('<note xml:id="%s" grace="acc" dur="8"%s pname="%s" oct="%d"%s/>' % (gid, dppq(F(1, 2)), g["step"].lower(), g["octave"], ' accid="%s"' % acc if acc else ""))
                         expected[k]["notes"].append((q, F(0), g["step"], g["alter"] or 0, g["octave"], True, li + 1))
                     if not mains:
                         continue
@@ -123,7 +135,7 @@ def encode(asc, style):
                     elif open_tuplet is not None:
                         out.append("</tuplet>")
                         open_tuplet = None
-                    dattr = ' dur="%s"%s' % (dur, ' dots="%d"' % dots if dots else "")
+                    dattr = ' dur="%s"%s%s' % (dur, ' dots="%d"' % dots if dots else "", dppq(d_q))
                     pitched = [n for n in mains if n["kind"] == "note"]
                     if not pitched:
                         out.append('<rest xml:id="%s"%s/>' % (nid("r"), dattr))
